@@ -612,3 +612,16 @@ Proof.
   destruct (build_report_spec _ _ _ _ I Hb' E) as (_ & _ & Hf & _).
   rewrite Forall_forall in Hf. apply Hf, Hin.
 Qed.
+
+(* reading of report_entry_ok *)
+Theorem entry_is_the_send r p :
+  report_entry_ok r p ->
+  exists q, send_rec r (p_ctr p) = Some q /\ 0 <= p_ctr p < nsends r /\
+    p_ssrc p = p_ssrc q /\ p_rtpseq p = p_rtpseq q /\ p_istwcc p = p_istwcc q /\ p_twseq p = p_twseq q /\
+    p_size p = p_size q /\ p_dep p = p_dep q /\
+    (p_arrived p, p_arrival p, p_ecn p) = spec_status r (p_ctr p).
+Proof.
+  intros (q & Hq & Hp). exists q. pose proof (send_rec_some _ _ _ Hq) as [_ Hr].
+  split; [exact Hq|]. split; [exact Hr|]. rewrite Hp at 1 2 3 4 5 6 7 8 9. cbn.
+  destruct (spec_status r (p_ctr p)) as [[a t] e]. cbn. repeat split; reflexivity.
+Qed.
